@@ -182,6 +182,20 @@ def check(run: Run) -> None:
             c.ops = [op for d in ds for op in (("parse", d, 0), ("dump", d, 0))]
             items += build_items(c)
 
+    # ---- members that compare equal hash alike: aliases (two names for one value) and the member a parsed value names ----
+    from dissect.cstruct import cstruct
+    for kind in ("enum", "flag"):
+        n_oracle += 1
+        cs_h = cstruct()
+        cs_h.load(f"{kind} H : uint8 {{ H_A = 1, H_B = 2, H_C = 2, H_D = 4, H_E = 1 }};")
+        H = cs_h.H
+        pairs = [(H.H_B, H.H_C), (H.H_A, H.H_E), (H(b"\x02"), H.H_B), (H(b"\x02"), H.H_C), (H(b"\x01"), H.H_A), (H(b"\x04"), H.H_D)]
+        bad_pairs = [(repr(x), repr(y)) for x, y in pairs if not (x == y and hash(x) == hash(y) and {x: 1}.get(y) == 1)]
+        if bad_pairs:
+            failures += 1
+            run.report("C12/alias-hash", {"definition": f"{kind} H : uint8 {{ H_A = 1, H_B = 2, H_C = 2, H_D = 4, H_E = 1 }};",
+                       "ops": [{"op": "x == y, hash(x) == hash(y), {x: 1}[y]", "observed": repr(bad_pairs)[:400], "expected": "equal members hash alike and find each other in a dict"}]})
+
     # ---- recorded findings: replayed on every run ----
     for text, data, sig in [
         ("flag K : int16 { K_A = 1, K_B = 2 };", b"\xe7\xa5", "C12/flag-signed-negative"),
